@@ -64,6 +64,17 @@ def build(u: Universe, tc: TypeCase, aval, route: str):
     return av.make_bp(u.bp, u.schema, tc.msg, aval, route)
 
 
+class _Sink:
+    """Write-only stream (no tell/seek/getvalue)."""
+
+    def __init__(self):
+        self.chunks: List[bytes] = []
+
+    def write(self, data) -> int:
+        self.chunks.append(bytes(data))
+        return len(data)
+
+
 def oracle(u: Universe, tc: TypeCase, aval: Dict[str, Any], route: str, tally: Tally) -> List[Fail]:
     fails: List[Fail] = []
     try:
@@ -94,6 +105,14 @@ def oracle(u: Universe, tc: TypeCase, aval: Dict[str, Any], route: str, tally: T
         want = wire.delimited(b)
         if s.getvalue() != want:
             fails.append(("delimited", f"delimited dump {s.getvalue().hex()[:60]} != {want.hex()[:60]}"))
+        # a stream that only has write() and already holds data: dump appends exactly bytes(m)
+        k = _Sink()
+        k.write(b"\x7f")
+        m.dump(k)
+        m.dump(k, betterproto.SIZE_DELIMITED)
+        tally.inc("edges", 2)
+        if b"".join(k.chunks) != b"\x7f" + b + want:
+            fails.append(("dump-sink", f"plain + delimited dump into a write-only stream wrote {b''.join(k.chunks).hex()[:80]}"))
         if m.SerializeToString() != b:
             fails.append(("serialize_to_string", "SerializeToString() != bytes(m)"))
         if bytes(m) != b:
